@@ -133,7 +133,7 @@ fn case(r: &mut Rng, i: u64, thorough: bool) -> String {
         nodes.retain(|n| n.tag() != Tag(0x7FE0, 0x0010));
         let nf = r.usize(0, 4);
         let frags: Vec<Vec<u8>> = (0..nf)
-            .map(|_| match r.below(4) {
+            .map(|_| match r.below(8) {
                 0 => vec![],
                 _ => {
                     let k = r.usize(1, 8) * 2;
@@ -141,7 +141,7 @@ fn case(r: &mut Rng, i: u64, thorough: bool) -> String {
                 }
             })
             .collect();
-        let bot: Vec<u32> = match r.below(3) {
+        let bot: Vec<u32> = match r.below(6) {
             0 => vec![],
             _ => (0..nf.max(1)).map(|k| (k * 16) as u32).collect(),
         };
